@@ -603,6 +603,7 @@ def template_programs(rng, count_disc=6):
             out.append(nodes)
     out += disc_width_programs(rng, const_of)
     out += aligned_copy_programs(rng, (1, 2, 4, 9) if count_disc <= 6 else (1, 2, 3, 4, 5, 8, 9, 16, 32, 33))
+    out += guard_after_write_programs(rng, count_disc <= 6)
     return [pg.compact_prog(n) for n in out]
 
 
@@ -661,6 +662,88 @@ def aligned_copy_programs(rng, ks):
                     p = words_of_width(nodes, pad, rng)
                     nodes.append(("pair", c, p))
                 out.append(nodes)
+    return out
+
+
+def guard_after_write_programs(rng, quick):
+    """comp (const bits : B) (pair X (pair W G)) with no input: the output frame starts at cell 0 and the comp's intermediate
+    frame (holding B = 2 * (2 * ... * 1), 10 bits) starts in the cell right behind it.  X (0..9 bits of word constants)
+    puts the write cursor at every alignment, W is a word constant or a typed witness of 8 / 16 / 32 bits and the LAST
+    data written into the output frame, and G : B -> 1 then asserts every bit of the intermediate frame (assertl / assertr
+    per bit, no writes).  A write primitive that spills over the end of the write frame, or a read cursor that is moved by
+    the write, turns one of the assertions into a failure (or lets a failing one pass: one bit of G is wrong in every
+    fourth program, where the run must fail)."""
+    out = []
+    hid = "%064x" % 0x5eed
+    k = 10
+    for xw in range(0, 10):
+        for n in ((3, 5) if quick else (3, 4, 5)):
+            for kind in ("word", "wit"):
+                for pat in range(3 if quick else 6):
+                    bits = [1] * k if pat == 0 else ([0] * k if pat == 1 else rng.bits(k))
+                    wrong = (xw + n + pat) % 4 == 3
+                    nodes = []
+                    # const : 1 -> B
+                    nodes.append(("unit",))
+                    t = len(nodes) - 1
+                    for b in reversed(bits):
+                        nodes.append(("word", 0, [b]))
+                        nodes.append(("pair", len(nodes) - 1, t))
+                        t = len(nodes) - 1
+                    const = t
+                    # G : B -> 1 * (1 * ...)
+                    nodes.append(("unit",))
+                    g = len(nodes) - 1
+                    exp = list(bits)
+                    if wrong:
+                        exp[rng.below(k)] ^= 1
+                    for b in reversed(exp):
+                        nodes.append(("drop", g))
+                        d = len(nodes) - 1
+                        nodes.append(("unit",))
+                        u = len(nodes) - 1
+                        nodes.append(("hid", hid))
+                        h = len(nodes) - 1
+                        nodes.append(("case", h, u) if b else ("case", u, h))     # assertr: the bit is 1 / assertl: it is 0
+                        nodes.append(("pair", len(nodes) - 1, d))
+                        g = len(nodes) - 1
+                    # X and W : B -> words (through unit)
+                    nodes.append(("unit",))
+                    u0 = len(nodes) - 1
+                    x = words_of_width(nodes, xw, rng)
+                    nodes.append(("comp", u0, x))
+                    xc = len(nodes) - 1
+                    if kind == "word":
+                        nodes.append(("word", n, rng.bits(2 ** n)))
+                        w = len(nodes) - 1
+                    else:
+                        # a witness node has a free target type: the same node is also composed with an anchor
+                        # 2^(2^n) -> 1 (a case per bit) inside X, which fixes its type without writing anything
+                        nodes.append(("wit", ("t", pg.word(n), rng.bits(2 ** n))))
+                        w = len(nodes) - 1
+                        nodes.append(("iden",))
+                        nodes.append(("unit",))
+                        nodes.append(("pair", len(nodes) - 2, len(nodes) - 1))
+                        pi = len(nodes) - 1
+                        nodes.append(("unit",))
+                        nodes.append(("case", len(nodes) - 1, len(nodes) - 1))
+                        nodes.append(("comp", pi, len(nodes) - 1))
+                        a = len(nodes) - 1                                         # 2 -> 1
+                        for _lvl in range(n):
+                            nodes.append(("take", a))
+                            nodes.append(("drop", a))
+                            nodes.append(("pair", len(nodes) - 2, len(nodes) - 1))
+                            a = len(nodes) - 1
+                        nodes.append(("comp", w, a))
+                        nodes.append(("comp", u0, len(nodes) - 1))
+                        nodes.append(("pair", xc, len(nodes) - 1))
+                        xc = len(nodes) - 1
+                    nodes.append(("comp", u0, w))
+                    wc = len(nodes) - 1
+                    nodes.append(("pair", wc, g))
+                    nodes.append(("pair", xc, len(nodes) - 1))
+                    nodes.append(("comp", const, len(nodes) - 1))
+                    out.append(nodes)
     return out
 
 
